@@ -24,7 +24,7 @@ RULE = ("cases: trees with critical flags on jobs and schedulers at every level,
         "digest")
 ASSUMPTIONS = RT_ASSUMPTIONS
 
-PROFILE = S.GENERAL.but(p_verbose=20, p_rerun=10,
+PROFILE = S.GENERAL.but(p_verbose=20, p_rerun=10, p_exc=60,
     p_raise=28, p_critical=45, p_nested=28, p_forever=10, p_wild=25,
     timeouts=((None, 6), (0, 2), (0.5, 1), (1, 2), (1.5, 1), (2, 2), (2.5, 1), (3, 2),
               (4, 1), (4.5, 1), (5, 1), (6, 1), (8, 1)),
@@ -199,4 +199,5 @@ evaluate = with_variants(evaluate_one)
 
 def sweeps(tier):
     # deterministic part: time values just above a minute, 1000 s, an hour, a day
-    return [S.time_ladder_sweep()]
+    # and every exception class through every entry point
+    return [S.time_ladder_sweep(), S.exception_entry_sweep()]
